@@ -46,6 +46,7 @@ type JobResult struct {
 	ExecSecs float64
 	NAssume  int
 	NVars    int
+	VarSorts map[string]string
 }
 
 type Options struct {
@@ -71,6 +72,10 @@ func main() {
 	switch os.Args[1] {
 	case "check":
 		os.Exit(cmdCheck(os.Args[2:]))
+	case "replay":
+		os.Exit(cmdReplay(os.Args[2:]))
+	case "selftest":
+		os.Exit(cmdSelftest(os.Args[2:]))
 	case "list":
 		ld, err := LoadRepo(nil)
 		if err != nil {
@@ -350,6 +355,10 @@ func (r *Run) runCase(hc harnessCase) *JobResult {
 	jr.Encoded, jr.Stubbed, jr.Modeled, jr.Stats = x.encoded, x.stubbed, x.modeled, x.stat
 	jr.NAssume = len(x.assumes)
 	jr.NVars = len(x.c.Vars)
+	jr.VarSorts = map[string]string{}
+	for _, v := range x.c.Vars {
+		jr.VarSorts[v.Name] = v.Sort.String()
+	}
 	if r.o.Verbose {
 		fmt.Fprintf(os.Stderr, "[%s/%d] executed in %.1fs: %d obligations, %d assumptions, %d terms, %d instrs\n",
 			hc.name, hc.k, jr.ExecSecs, len(x.obls), len(x.assumes), x.c.n, x.stat.instrs)
@@ -461,6 +470,11 @@ var smtFileN int
 var smtFileMu sync.Mutex
 
 func (r *Run) solveOne(pq *pendingQuery, jr *JobResult) {
+	if r.o.KeepSMT != "" {
+		os.MkdirAll(r.o.KeepSMT, 0o755)
+		os.WriteFile(filepath.Join(r.o.KeepSMT, fmt.Sprintf("pre_%s_%d_%p.smt2", jr.Harness, jr.Case, pq)),
+			[]byte("; "+pq.res.ID+"\n"+pq.q.Text+"(check-sat)\n"), 0o644)
+	}
 	res := r.pool.Solve(pq.q, r.o.Timeout, true)
 	pq.res.Status = res.Status
 	pq.res.Secs = res.Secs
